@@ -12,6 +12,12 @@ from ..openpath import CACHE_DECODE, CREATE_CACHE, OPEN_IMAGE, READ_CACHE, OpenP
 LEVEL = "other"
 
 
+def open_after_torn(chk, repo):
+    """C09-X5: a torn cache sends a default open down the parse path and nowhere else: no write, no second pass (vlib/openmodel.py)"""
+    from .open_rules import open_rules
+    open_rules(chk, repo, "C09-X5", ('lookup', 'hit', 'write', 'parse'), "open_image with a torn cache (read_cache raises CachingError with a cause): the image is parsed once and nothing is written unless create_cache is set")
+
+
 def run(chk, repo):
     op = OpenPath(repo)
     chk.explanation = (
@@ -132,4 +138,5 @@ def run(chk, repo):
                 bad.append(e)
     chk.require(not bad, "C09-X3", op.where(oi), "no file-system write is reachable from open_image outside create_cache",
                 f"the read/fallback path writes: {bad[:3]}", key="open_image:fallback-writes")
+    chk.attempt(open_after_torn, chk, repo)
     chk.count("functions", len(reach))
